@@ -1032,12 +1032,12 @@ def cases(ctx):
     argvs = gen_argvs(rng, "cnfshuffle", tier)
     for a in uniq(argvs, key=tuple):
         out.append(build("t_shuffle", {"tool": "cnfshuffle", "argv": a, "stdin": ["bytes", good], "seed": 2,
-                                       "files": std, "cls": "argv:" + ("unreadable" if UNREADABLE in a else arg_class(a))}))
+                                       "files": std, "cls": ("unreadable-input" if UNREADABLE in a else "argv:" + arg_class(a))}))
     out.append(build("t_shuffle", {"tool": "cnfshuffle", "argv": [], "stdin": ["bytes", "p cnf 1 1\n1 0\n\xff\xfe"], "seed": 0,
                                    "cls": "undecodable"}))
     out.append(build("t_shuffle", {"tool": "cnfshuffle", "argv": ["-i", "bad"], "files": [("bad", "\xff\xfe")], "stdin": ["bytes", ""],
                                    "seed": 0, "cls": "undecodable"}))
-    out.append(build("t_shuffle", {"tool": "cnfshuffle", "argv": [], "stdin": ["broken", ""], "seed": 0, "cls": "unreadable"}))
+    out.append(build("t_shuffle", {"tool": "cnfshuffle", "argv": [], "stdin": ["broken", ""], "seed": 0, "cls": "unreadable-input"}))
     for a in DASHDASH + DASHDASH_SHUFFLE:
         out.append(build("t_shuffle", {"tool": "cnfshuffle", "argv": a, "stdin": ["bytes", good], "seed": 0, "files": std,
                                        "cls": "argv:dashdash-value"}))
@@ -1086,20 +1086,20 @@ def cases(ctx):
     goodk = "3\n1 : 0\n2 : 0\n3 : 1 2 0\n"
     for a in uniq(gen_argvs(rng, "kthlist2pebbling", tier), key=tuple):
         out.append(build("t_k2p", {"tool": "kthlist2pebbling", "argv": a, "stdin": ["bytes", goodk], "files": std,
-                                   "cls": "argv:" + ("unreadable" if UNREADABLE in a else arg_class(a))}))
+                                   "cls": ("unreadable-input" if UNREADABLE in a else "argv:" + arg_class(a))}))
     out.append(build("t_k2p", {"tool": "kthlist2pebbling", "argv": [], "stdin": ["bytes", "2\n1 : 0\n\xff"], "cls": "undecodable"}))
-    out.append(build("t_k2p", {"tool": "kthlist2pebbling", "argv": [], "stdin": ["broken", ""], "cls": "unreadable"}))
+    out.append(build("t_k2p", {"tool": "kthlist2pebbling", "argv": [], "stdin": ["broken", ""], "cls": "unreadable-input"}))
     for a in DASHDASH:
         out.append(build("t_k2p", {"tool": "kthlist2pebbling", "argv": a, "stdin": ["bytes", goodk], "files": std,
                                    "cls": "argv:dashdash-value"}))
 
     # ---- t_report: the report of a refused command line / input, line by line
-    for tool, argv, txt, cls in (("cnfshuffle", ["--bogus"], good, "report:cnfshuffle"), ("cnfshuffle", [], "garbage", "report:cnfshuffle"),
-                                 ("cnfshuffle", ["-i", "missing"], "", "report:cnfshuffle"),
-                                 ("kthlist2pebbling", ["--bogus"], goodk, "report:kthlist2pebbling-parser"),
-                                 ("kthlist2pebbling", ["nosuch"], goodk, "report:kthlist2pebbling-parser"),
-                                 ("kthlist2pebbling", [], "x", "report:kthlist2pebbling-reader"),
-                                 ("kthlist2pebbling", [], "2\n1 : 2 0\n", "report:kthlist2pebbling-reader")):
+    for tool, argv, txt, cls in (("cnfshuffle", ["--bogus"], good, "report:no-prefix"), ("cnfshuffle", [], "garbage", "report:no-prefix"),
+                                 ("cnfshuffle", ["-i", "missing"], "", "report:no-prefix"),
+                                 ("kthlist2pebbling", ["--bogus"], goodk, "report:no-prefix"),
+                                 ("kthlist2pebbling", ["nosuch"], goodk, "report:no-prefix"),
+                                 ("kthlist2pebbling", [], "x", "report:prefixed"),
+                                 ("kthlist2pebbling", [], "2\n1 : 2 0\n", "report:prefixed")):
         out.append(build("t_report", {"tool": tool, "argv": argv, "stdin": ["bytes", txt], "cls": cls}))
     for c in out:
         c.info.setdefault("tier", tier)
